@@ -32,9 +32,9 @@ def main():
         diff = os.path.join(src, 'variant_%s.diff' % var)
         demo = os.path.join(src, 'variant_%s.rs' % var)
     base_patch = None
-    if '--round4' in sys.argv or '--round5' in sys.argv:
+    if '--round4' in sys.argv or '--round5' in sys.argv or '--round6' in sys.argv:
         src = '/tmp/wb-%s/demo' % pid
-        tag = ('n' if '--round4' in sys.argv else 'm') + var
+        tag = ('n' if '--round4' in sys.argv else 'm' if '--round5' in sys.argv else 'p') + var
         diff = os.path.join(src, 'variant_%s.diff' % var)
         demo = os.path.join(src, 'variant_%s.rs' % var)
         base_patch = open('/tmp/wbbase-%s' % pid).read().strip()
@@ -111,7 +111,7 @@ def main():
             json.dump({
                 'breaks_property': pid,
                 'variant': tag,
-                'origin': 'independent sub-agent given only the property text and a scratch worktree' + (' (second round: asked for subtle changes - cooperating edits, narrow refactoring slips - avoiding the first round\'s mechanisms)' if tag.startswith('h') else ' (third round: a = a narrow-trigger "needle" change, b = one behaviour change hidden inside a 60+ line refactoring)' if tag.startswith('r') else ' (fourth round: written against a tree already restructured by the behaviour-preserving refactoring named in "base"; patch.diff = base + change, relative to /repo)' if tag[0] in 'nm' else ''),
+                'origin': 'independent sub-agent given only the property text and a scratch worktree' + (' (second round: asked for subtle changes - cooperating edits, narrow refactoring slips - avoiding the first round\'s mechanisms)' if tag.startswith('h') else ' (third round: a = a narrow-trigger "needle" change, b = one behaviour change hidden inside a 60+ line refactoring)' if tag.startswith('r') else ' (fourth round: written against a tree already restructured by the behaviour-preserving refactoring named in "base"; patch.diff = base + change, relative to /repo)' if tag[0] in 'nmp' else ''),
                 'base': (res.get('base') or None),
                 'needs_to_manifest': 'see notes',
                 'notes_from_author': notes,
